@@ -288,7 +288,7 @@ pub fn run(cfg: &Cfg, rep: &mut Rep) {
     }
     // random
     let mut r = Rng::new(cfg.seed, 0x0200 + sh as u64);
-    let nrand = cfg.budget(1_600_000);
+    let nrand = cfg.budget(6_000_000);
     for k in 0..nrand {
         match k % 8 {
             0 | 1 => {
